@@ -31,6 +31,40 @@ REPROS = {
         "except AssertionError as ex:\n"
         "    print('trapezoid variant raises AssertionError (complex midpoint environment copied into a real state)'); trapz_bad = True\n"
         "sys.exit(1 if (e16/e32 < 3.0 or trapz_bad) else 0)\n",
+    "thermalprop-h-mpo-model-ignored":
+        "import renormalizer\nimport numpy as np, scipy.linalg as sla, sys\nfrom renormalizer.model import Model, Op, basis as ba\n"
+        "from renormalizer.mps import MpDm, Mpo, ThermalProp\nfrom renormalizer.utils import EvolveConfig, EvolveMethod\n"
+        "def mk(e0, g, J):\n"
+        "    basis=[]; ham=[]\n"
+        "    for i in range(2):\n"
+        "        basis += [ba.BasisSimpleElectron('e%d'%i), ba.BasisSHO('v%d'%i, 1.0, 2)]\n"
+        "        ham += [Op(r'a^\\dagger a','e%d'%i,e0[i]), Op(r'b^\\dagger b','v%d'%i,1.0), Op(r'a^\\dagger a','e%d'%i,g)*Op(r'b^\\dagger+b','v%d'%i)]\n"
+        "    ham += [Op(r'a^\\dagger a',['e0','e1'],J), Op(r'a^\\dagger a',['e1','e0'],J)]\n"
+        "    return Model(basis, ham)\n"
+        "m1 = mk((0.1, 0.6), 0.5, 0.4); m2 = mk((0.9, 0.2), 0.3, 0.2); H2 = np.asarray(Mpo(m2).todense())\n"
+        "init = MpDm.max_entangled_ex(m1); rho0 = np.asarray(init.todense()) * init.coeff\n"
+        "beta = 3.0\n"
+        "tp = ThermalProp(init.copy(), h_mpo_model=m2, evolve_config=EvolveConfig(EvolveMethod.tdvp_ps)); tp.evolve(evolve_dt=-1j*beta/4, nsteps=2)\n"
+        "ref = sla.expm(-beta/2*H2) @ rho0; ref /= np.linalg.norm(ref)\n"
+        "n0 = np.kron(np.diag([0., 1.]), np.eye(8)); occ_ref = np.trace(ref.T @ n0 @ ref)\n"
+        "occ = tp.e_occupations_array[-1][0]\n"
+        "print('ThermalProp(h_mpo_model=M2): occupation of molecule 0', occ, ' Gibbs state of H2:', occ_ref)\n"
+        "sys.exit(1 if abs(occ - occ_ref) > 1e-5 else 0)\n",
+    "thermalprop-exact-propagation":
+        "import renormalizer\nimport numpy as np, scipy.linalg as sla, sys\nfrom renormalizer.model import HolsteinModel, Mol, Phonon\n"
+        "from renormalizer.mps import Mpo, MpDm, ThermalProp\nfrom renormalizer.utils import Quantity\n"
+        "w, d, n = 1.25, 0.75, 3\n"
+        "model = HolsteinModel([Mol(Quantity(0.5), [Phonon.simple_phonon(Quantity(w), Quantity(d), n)])], np.zeros((1, 1)))\n"
+        "tp = ThermalProp(MpDm.max_entangled_gs(model), exact=True, space='GS'); tp.evolve(evolve_dt=-0.5j, nsteps=1)\n"
+        "rho = Mpo.onsite(model, r'a^\\dagger').apply(tp.latest_mps, canonicalise=True); rho.normalize('mps_and_coeff')\n"
+        "r0 = np.asarray(rho.todense()) * rho.coeff\n"
+        "tp2 = ThermalProp(rho, exact=True, space='EX'); tp2.evolve(evolve_dt=-0.4j, nsteps=3)\n"
+        "got = np.asarray(tp2.latest_mps.todense()) * tp2.latest_mps.coeff\n"
+        "ph = model[0].ph_list[0]; b = np.diag(np.sqrt(np.arange(1, n)), 1)\n"
+        "U = np.kron(np.eye(2), sla.expm(-1.2 * (ph.omega[0] * b.T @ b + ph.term10 * (b.T + b))))\n"
+        "ref = U @ r0; ref /= np.linalg.norm(ref)\n"
+        "err = np.abs(got - ref).max(); print('ThermalProp exact, EX space, from a^dagger thermal(GS): max |rho - U rho0/norm| =', err)\n"
+        "sys.exit(1 if err > 1e-9 else 0)\n",
     "evolve-exact-phase-bookkeeping":
         "import renormalizer\nimport numpy as np, sys\nfrom renormalizer.model import HolsteinModel, Mol, Phonon\nfrom renormalizer.mps import Mps, Mpo, MpDm\n"
         "from renormalizer.utils import Quantity\n"
@@ -55,6 +89,8 @@ REPROS = {
 
 
 def classify(k, rec):
+    if k.startswith(("thermal-other-model", "exception/thermal-other-model")):
+        return "thermalprop-h-mpo-model-ignored"
     if k.startswith(("order/cmf2", "order/cmf_trapz", "exception/cmf_trapz", "exception/cmf2")):
         return "cmf-imag-midpoint-realtime"
     return "oracle/" + "/".join(k.split("/")[:2])
@@ -147,7 +183,8 @@ def run(ctx):
         ties += res["tie"]
         n_or += res["n_oracle"]
         for b in res["bad"]:
-            key = "evolve-exact-phase-bookkeeping" if b["what"] == "evolve_exact bookkeeping" else "oracle/" + b["what"].replace(" ", "-")
+            key = {"evolve_exact bookkeeping": "evolve-exact-phase-bookkeeping", "ThermalProp exact": "thermalprop-exact-propagation"}.get(
+                b["what"], "oracle/" + b["what"].replace(" ", "-"))
             classes.setdefault(key, []).append(b)
     n_tie = n_tie_ok = 0
     if ties and ok_build:
@@ -193,6 +230,8 @@ def run(ctx):
     for key, recs in sorted(classes.items()):
         repro = REPROS.get(key)
         what = {"cmf-imag-midpoint-realtime": "oracle clause `every scheme that supports imaginary time yields exp(-tau H) psi / norm within its own order`",
+                "thermalprop-h-mpo-model-ignored": "oracle clause `thermal propagation gives the canonical averages of the Hamiltonian it was given` (ThermalProp.evolve_prop)",
+                "thermalprop-exact-propagation": "theorem C10_evolve_exact_source (order of application) and the oracle for ThermalProp(exact=True): normalised U rho on the physical index",
                 "evolve-exact-phase-bookkeeping": "theorems C10_evolve_exact_source / C10_evolve_exact_total and the bookkeeping oracle"}.get(key, "dense oracle: " + key)
         ctx.violation(key, what, {"n_records": len(recs), "records": recs[:3]}, found=repro is not None, repro=repro)
     if broken or corr_bad:
